@@ -307,6 +307,8 @@ func (cf *convFunc) resultType(a *convArm) (types.Type, bool, bool) {
 func propC20(c *Ctx) {
 	l := c.L
 	defer func() {
+		rgl := c.Rule("global-lock-callback", "no package-level mutex of the library is held across a call through a function value (registered converters may re-enter the conversion functions)", 1)
+		ruleGlobalLockCallback(c, rgl)
 		rle := c.Rule("loop-err-checked", "the conversion of every element of a container reports its error: the error of a call made inside a loop of the root package is tested, returned or handed on inside the loop", 4)
 		ruleLoopErrChecked(c, rle, l.RepoFuncs(func(p string) bool { return p == modPath }), 4)
 	}()
